@@ -146,6 +146,8 @@ impl IOQueue {
     /// Append data to the chunk at the front of the queue, that is the chunk
     /// which is never discarded by `clear_but_last`
     pub fn write_front(&mut self, buf: &[u8]) {
+        #[cfg(feature = "verif-hooks")]
+        crate::verif::emit(|| format!(r#"{{"ev":"queue_write_front","n":{}}}"#, buf.len()));
         if self.chunks.is_empty() {
             self.chunks.push_back(Default::default());
         }
